@@ -312,3 +312,194 @@ Section DriveProofs.
     - intros; eapply resume_interrupt_reports; eauto.
   Qed.
 End DriveProofs.
+
+(* ---------- nested interrupts: the nested information and the nested checkpoints of an interrupt
+   are the pairs the node bodies returned ----------
+   [Q k cp info] is any property of what a node body returns when a nested graph is interrupted inside
+   ([TSub cp info]); every interrupt of a segment lists, position by position, nested infos and nested
+   checkpoints under the same node keys, each pair satisfying [Q]. Instantiated in
+   Proofs/InterruptDrive.v with "the nested interrupt is itself faithful", by induction on the nesting
+   depth. *)
+Section SubsProofs.
+  Context {V CS GS ENV SCP SINFO : Type}.
+  Variable zero : V.
+  Variable fold : CS -> list (N * V) -> res CS.
+  Variable getr : CS -> res (CS * list (N * V)).
+  Variable pre : N -> V -> GS -> V * GS.
+  Variable exec : N -> option SCP -> V -> ENV -> @texec V SCP SINFO * ENV.
+  Variable before after : list N.
+  Variable Q : N -> SCP -> SINFO -> Prop.
+  Hypothesis H_exec_Q : forall k cpo v env cp info env', exec k cpo v env = (TSub cp info, env') -> Q k cp info.
+
+  Notation lstateT := (@lstate V CS GS SCP).
+  Notation estateT := (@estate V CS GS SCP SINFO).
+  Notation texecT := (@texec V SCP SINFO).
+  Notation cptT := (@checkpoint V CS GS SCP).
+  Notation infT := (@iinfo GS SINFO).
+  Notation stepB := (step zero fold getr pre exec before after).
+  Notation iterB := (iterate zero fold getr pre exec before after).
+  Notation estepE := (estep_gen zero fold getr pre exec before after false).
+  Notation eiterE := (eiterate zero fold getr pre exec before after false).
+  Notation edecideE := (edecide zero fold getr before after false).
+
+  Definition res_ok (r : N * texecT) : Prop :=
+    match snd r with TSub cp info => Q (fst r) cp info | _ => True end.
+
+  Definition pair_ok (ki : N * SINFO) (kc : N * SCP) : Prop := fst ki = fst kc /\ Q (fst kc) (snd kc) (snd ki).
+
+  Definition subs_paired (i : infT) (c : cptT) : Prop := Forall2 pair_ok (ii_subs i) (cp_subs c).
+
+  Lemma exec_all_res_ok : forall ts env, Forall res_ok (fst (exec_all exec ts env)).
+  Proof.
+    induction ts as [|t ts IH]; intros env; simpl; [constructor|].
+    destruct (exec (t_key t) (t_cp t) (t_in t) env) as [r env1] eqn:He.
+    specialize (IH env1). destruct (exec_all exec ts env1) as [rest env2]; simpl in *.
+    constructor; auto. unfold res_ok; simpl. destruct r; auto. eapply H_exec_Q; eauto.
+  Qed.
+
+  Lemma subs_of_res_ok : forall rs : list (N * texecT),
+    Forall res_ok rs -> Forall2 pair_ok (subinfos rs) (subcps rs).
+  Proof.
+    induction rs as [|[k r] rs IH]; intros H; [constructor|].
+    inversion H as [|? ? H1 H2]; subst. unfold subinfos, subcps in *; simpl.
+    destruct r; simpl; auto. constructor; auto. split; auto.
+  Qed.
+
+  Lemma info_ok_subs_paired : forall (rs : list (N * texecT)) i c,
+    info_ok zero before after rs i c -> Forall res_ok rs -> subs_paired i c.
+  Proof.
+    intros rs i c (_ & _ & _ & Hi & Hc & _) Hr. unfold subs_paired. rewrite Hi, Hc.
+    apply subs_of_res_ok; auto.
+  Qed.
+
+  (* batch *)
+  Lemma iterate_interrupt_subs : forall fuel (s : lstateT) env log i c log' env',
+    iterB fuel s env log = (OInterrupted i c, log', env') -> subs_paired i c.
+  Proof.
+    induction fuel as [|f IH]; intros s env log i c log' env' H; simpl in H; [discriminate|].
+    destruct (stepB s env) as [[r evs] env1] eqn:Hs.
+    destruct r as [s'|v|i0 c0|e]; try discriminate.
+    - eapply IH; eauto.
+    - inversion H; subst. rewrite step_unfold in Hs. inversion Hs as [[Hd He Hv]].
+      eapply info_ok_subs_paired; [eapply decide_info_ok; eauto|].
+      unfold results. apply exec_all_res_ok.
+  Qed.
+
+  Lemma init_interrupt_subs : forall cs0 (gs0 : GS) x i (c : cptT),
+    init (SINFO := SINFO) fold getr before cs0 gs0 x = Interrupted i c -> subs_paired i c.
+  Proof.
+    intros cs0 gs0 x i c Hi.
+    edestruct (init_info_ok zero fold getr pre exec before after) as [Hok _]; [exact Hi|].
+    eapply info_ok_subs_paired; [exact Hok|constructor].
+  Qed.
+
+  (* eager *)
+  Lemma take_key_forall : forall (P : N * texecT -> Prop) k l y r,
+    Forall P l -> take_key k l = Some (y, r) -> P y /\ Forall P r.
+  Proof.
+    intros P k. induction l as [|x l IH]; intros y r Hf H; simpl in H; [discriminate|].
+    inversion Hf as [|? ? Hx Hl]; subst.
+    destruct (N.eqb (fst x) k).
+    - inversion H; subst; auto.
+    - destruct (take_key k l) as [[y' r']|] eqn:Ht; [|discriminate]. inversion H; subst.
+      destruct (IH _ _ Hl eq_refl) as [Hy Hr]. split; auto.
+  Qed.
+
+  Lemma pick_forall : forall (P : N * texecT -> Prop) l sched c rest sched',
+    Forall P l -> pick l sched = Some (c, rest, sched') -> P c /\ Forall P rest.
+  Proof.
+    intros P l sched c rest sched' Hf H. unfold pick in H.
+    destruct l as [|x l']; [discriminate|].
+    destruct sched as [|k sc].
+    - inversion H; subst. inversion Hf; auto.
+    - destruct (take_key k (x :: l')) as [[y r]|] eqn:Ht.
+      + inversion H; subst. eapply take_key_forall; eauto.
+      + inversion H; subst. inversion Hf; auto.
+  Qed.
+
+  Lemma estep_subs : forall (s : estateT) sched env r evs env',
+    Forall res_ok (es_running s) ->
+    estepE s sched env = (r, evs, env') ->
+    match r with
+    | EContinue s' _ => Forall res_ok (es_running s')
+    | EStop (Interrupted i c) => subs_paired i c
+    | EStop _ => True
+    end.
+  Proof.
+    unfold estep_gen; intros s sched env r evs env' Hrun H.
+    destruct (run_pres pre (es_next s) (es_gs s)) as [ts gs1].
+    pose proof (exec_all_res_ok ts env) as Hnew.
+    destruct (exec_all exec ts env) as [rs env1]; simpl in Hnew.
+    assert (Hall : Forall res_ok (es_running s ++ rs)) by (apply Forall_app; auto).
+    destruct (pick (es_running s ++ rs) sched) as [[[cc rest] sc]|] eqn:Hp.
+    - destruct (pick_forall _ _ _ _ _ _ Hall Hp) as [Hc Hrest].
+      inversion H as [[Hd He Hv]]. clear H.
+      destruct (edecideE (es_cs s) gs1 cc rest sc) as [s' sc'|r'] eqn:Hdec.
+      + apply edecide_continue in Hdec as (cs2 & ready & _ & _ & _ & _ & _ & -> & _). simpl. exact Hrest.
+      + destruct r' as [s'|v|i c|e]; auto.
+        eapply info_ok_subs_paired; [eapply edecide_info_ok; eauto|]. constructor; auto.
+    - inversion H; subst. exact I.
+  Qed.
+
+  Lemma eiterate_interrupt_subs : forall fuel (s : estateT) sched env log i c log' env',
+    Forall res_ok (es_running s) ->
+    eiterE fuel s sched env log = (OInterrupted i c, log', env') -> subs_paired i c.
+  Proof.
+    induction fuel as [|f IH]; intros s sched env log i c log' env' Hrun H; simpl in H; [discriminate|].
+    destruct (estepE s sched env) as [[r evs] env1] eqn:Hs.
+    pose proof (estep_subs _ _ _ _ _ _ Hrun Hs) as Hst.
+    destruct r as [s' sched'|r].
+    - eapply IH; eauto.
+    - destruct r as [s'|v|i0 c0|e]; simpl in H; try discriminate.
+      inversion H; subst. exact Hst.
+  Qed.
+End SubsProofs.
+
+(* every interrupt returned by a call of a driven run is an interrupt returned by a segment *)
+Section DriveInterrupts.
+  Context {V CS GS ENV SCP SINFO B : Type}.
+  Notation cptT := (@checkpoint V CS GS SCP).
+  Notation infT := (@iinfo GS SINFO).
+  Notation outT := (@outcome V CS GS SCP SINFO).
+  Variable ser : cptT -> B.
+  Variable deser : B -> option cptT.
+  Variable fresh : ENV -> outT * list (@event V) * ENV.
+  Variable resumed : (GS -> GS) -> cptT -> ENV -> outT * list (@event V) * ENV.
+  Variable tick : nat -> ENV -> ENV.
+  Variable P : infT -> cptT -> Prop.
+  Hypothesis H_fresh : forall env i c log env', fresh env = (OInterrupted i c, log, env') -> P i c.
+  Hypothesis H_res : forall sm c0 env i c log env', resumed sm c0 env = (OInterrupted i c, log, env') -> P i c.
+
+  Lemma call_interrupt_from_segment : forall with_id store sm env co store' env' i c,
+    call ser deser fresh resumed with_id store sm env = (co, store', env') ->
+    co_out co = OInterrupted i c -> P i c.
+  Proof.
+    intros with_id store sm env co store' env' i c H Ho. unfold call in H.
+    destruct (if with_id then store else None) as [b|].
+    - destruct (deser b) as [c0|].
+      + destruct (resumed sm c0 env) as [[o l] e1] eqn:Hs.
+        destruct o; try destruct with_id; inversion H; subst; simpl in Ho; inversion Ho; subst; eapply H_res; eauto.
+      + inversion H; subst; simpl in Ho; discriminate.
+    - destruct (fresh env) as [[o l] e1] eqn:Hs.
+      destruct o; try destruct with_id; inversion H; subst; simpl in Ho; inversion Ho; subst; eapply H_fresh; eauto.
+  Qed.
+
+  Lemma drive_interrupts_from_segments : forall with_id n k mods store env cos env',
+    drive ser deser fresh resumed tick with_id n k mods store env = (cos, env') ->
+    forall co i c, In co cos -> co_out co = OInterrupted i c -> P i c.
+  Proof.
+    intros with_id. induction n as [|n IH]; intros k mods store env cos env' H co i c Hin Ho; simpl in H.
+    - destruct (call ser deser fresh resumed with_id store (mods k) (tick k env)) as [[co0 st'] e1] eqn:Hc.
+      assert (cos = [co0]) by (destruct (co_out co0); inversion H; reflexivity). subst cos.
+      destruct Hin as [<-|[]]. eapply call_interrupt_from_segment; eauto.
+    - destruct (call ser deser fresh resumed with_id store (mods k) (tick k env)) as [[co0 st'] e1] eqn:Hc.
+      destruct (co_out co0) as [v|i0 c0|e0|] eqn:Ho0;
+        try (inversion H; subst; destruct Hin as [<-|[]]; rewrite Ho0 in Ho; discriminate).
+      destruct with_id.
+      + destruct (drive ser deser fresh resumed tick true n (S k) mods st' e1) as [rest e2] eqn:Hd.
+        inversion H; subst. destruct Hin as [<-|Hin].
+        * eapply call_interrupt_from_segment; eauto.
+        * eapply IH; eauto.
+      + inversion H; subst. destruct Hin as [<-|[]]. eapply call_interrupt_from_segment; eauto.
+  Qed.
+End DriveInterrupts.
